@@ -22,6 +22,7 @@ func authzCfg(c *Ctx) ExploreConfig {
 
 func runC17(c *Ctx) {
 	c17Use(c)
+	c17Merge(c)
 	c17Push(c)
 	c17Handler(c)
 }
@@ -382,3 +383,58 @@ func parHandlerRules(c *Ctx, rule, expRule string) {
 }
 
 var _ = (*ssa.Function)(nil)
+
+// c17Merge: Request.Merge makes the merged (pushed) request's form values
+// authoritative: every key of the merged form overwrites the receiver's value.
+func c17Merge(c *Ctx) {
+	const rule, role = "C17.R2", "request-merge"
+	fn := c.P.Func("(*" + pkgRoot + ".Request).Merge")
+	if fn == nil {
+		c.RoleUnmatched(rule, role, "(*fosite.Request).Merge")
+		return
+	}
+	ex := c.Explore(fn, ExploreConfig{}, "merge")
+	if !c.complete(ex, rule, role, fn) {
+		return
+	}
+	a, req := paramNamed(fn, 0), paramNamed(fn, 1)
+	srcForm := call(".GetRequestForm", req)
+	ok, n := true, 0
+	var w *Path
+	why := ""
+	fields := map[string]string{"Client": ".GetClient", "Session": ".GetSession", "ID": ".GetID"}
+	gotField := map[string]bool{}
+	for _, p := range ex.Paths {
+		for _, e := range p.Events {
+			if e.Kind == "store" {
+				if g, isF := fields[e.Name]; isF && addrRoot(e.Args[0]).Key() == a.Key() {
+					if e.Args[1].Key() == call(g, req).Key() {
+						gotField[e.Name] = true
+					} else {
+						ok, w, why = false, p, "Merge sets "+e.Name+" from "+clip(e.Args[1].Pretty(), 60)
+					}
+				}
+			}
+			if e.Kind != "mapupdate" {
+				continue
+			}
+			m := e.Args[0]
+			if !(m.Op == "field" && m.Name == "Form" && addrRoot(m).Key() == a.Key()) {
+				continue
+			}
+			n++
+			k, v := e.Args[1], e.Args[2]
+			if !(k.Op == "rangekey" && k.Args[0].Key() == srcForm.Key()) {
+				ok, w, why = false, p, "a form key that does not come from the merged request is written: "+k.Pretty()
+				continue
+			}
+			want := mk("rangeval", "", srcForm, k.Args[1])
+			usesOwn := v.Mentions(func(t *Term) bool { return t.Op == "field" && t.Name == "Form" && addrRoot(t).Key() == a.Key() })
+			if !v.Contains(want.Key()) || usesOwn {
+				ok, w, why = false, p, "the receiver's form value for a merged key is "+clip(v.Pretty(), 100)+": it must be exactly the merged request's value (the receiver's own value may not survive)"
+			}
+		}
+	}
+	c.Check(ok && n > 0, rule, role, fn, "merged-form-authoritative", "Request.Merge overwrites the receiver's form value of every key of the merged request with the merged request's value", why, w)
+	c.Check(len(gotField) == len(fields), rule, role, fn, "merged-identity-authoritative", "Request.Merge takes id, client and session from the merged request", fmt.Sprintf("fields set from the merged request: %d/3", len(gotField)), nil)
+}
